@@ -335,6 +335,7 @@ func GenTopLevel(r *RNG, depth int) (stmts []string, globals []string, feat map[
 	g.w("type T struct {\n\tA int\n\tB int\n}\n")
 	g.w("func (t *T) Sum(k int) int {\n\treturn t.A + t.B*k\n}\n")
 	g.w("func (t *T) Inc() {\n\tt.A++\n\tt.B += 2\n}\n")
+	g.w("func (t *T) Vsum(k int, xs ...int) int {\n\ts := t.A * k\n\tfor _, x := range xs {\n\t\ts += x\n\t}\n\treturn s + len(xs)\n}\n")
 	g.w("func add(a int, b int) int {\n\treturn a + b\n}\n")
 	g.w("func isOdd(a int) bool {\n\treturn a%%2 != 0\n}\n")
 	g.w("func pair2(a int, b int) (int, int) {\n\treturn b, a + 1\n}\n")
